@@ -1726,6 +1726,17 @@ class GroupBy:
         value_names, value_list, type_list, common_index = self._preprocess_arguments(
             values, mask
         )
+        if times is not None:
+            # the timestamps are row-aligned with the keys like the values are (their
+            # length is compared by ema_grouped, the index has to be compared here)
+            if (
+                self._key_index is not None
+                and isinstance(times, pd.Series)
+                and not self._key_index.equals(times.index)
+            ):
+                raise ValueError(
+                    "Pandas index of times does not match that of the group keys"
+                )
 
         return_polars = self._values_is_polars(type_list)
 
